@@ -44,6 +44,11 @@ type Opts struct {
 	BeginAnyDay  bool // start anywhere in the start year (else August..October)
 	LeachAtBottom bool
 	Peat         bool
+	NoRad        bool // no radiation column: sunshine hours are used instead
+	PolarLat     bool // latitudes up to +-78 degrees (day length clamps)
+	Drought      bool // long dry spells
+	BulkExplicit bool // explicit bulk density values (csv soil)
+	HighCorg     bool // organic carbon up to 6 %
 }
 
 func pick[T any](r *rand.Rand, xs []T) T { return xs[r.Intn(len(xs))] }
@@ -109,6 +114,9 @@ func Random(r *rand.Rand, name string, o Opts) *Project {
 	c.NDepo = between(r, 0, 60)
 	c.VirtualDate = "--------"
 	c.Lat100 = between(r, 3500, 6500)
+	if o.PolarLat {
+		c.Lat100 = pick(r, []int{-7800, -6600, -3000, 0, 2500, 6600, 7200, 7800})
+	}
 	c.Alt = between(r, 0, 800)
 	c.CoastKm = between(r, 0, 400)
 	c.OrgMin100 = 13
@@ -162,6 +170,12 @@ func Random(r *rand.Rand, name string, o Opts) *Project {
 			}
 		} else {
 			h.Corg100 = between(r, 0, 80)
+		}
+		if o.BulkExplicit {
+			h.Bulk100 = between(r, 80, 190)
+		}
+		if o.HighCorg {
+			h.Corg100 = between(r, 0, 600)
 		}
 		if o.Stones {
 			h.StonePct = pick(r, []int{0, 10, 30, 60, 80, 90, 95})
@@ -280,7 +294,10 @@ func Random(r *rand.Rand, name string, o Opts) *Project {
 	w.NoneValue = pick(r, []float64{-99.9, -99, 999.9})
 	w.NumHeader = 2
 	w.WindHeight = 2
-	w.HasRad = true
+	w.HasRad = !o.NoRad
+	if o.NoRad {
+		w.HasSun = true
+	}
 	if c.ETpot == 1 {
 		w.HasVerd = true
 	}
@@ -295,6 +312,20 @@ func Random(r *rand.Rand, name string, o Opts) *Project {
 	last := DayNum(yearOf(end), 12, 31)
 	w.First = first
 	w.Days = SynthWeather(r, first, last, float64(c.TAnnual10)/10, o.HeavyRain, o.ColdWinters, c.ETpot == 1 || w.HasVerd, c.ETpot == 5)
+	if o.Drought {
+		// two dry spells of 150-250 days
+		for k := 0; k < 2; k++ {
+			a := r.Intn(len(w.Days))
+			for i := a; i < a+between(r, 150, 250) && i < len(w.Days); i++ {
+				w.Days[i].Rain = 0
+			}
+		}
+	}
+	if o.NoRad {
+		for i := range w.Days {
+			w.Days[i].Rad = None
+		}
+	}
 	return p
 }
 
